@@ -370,3 +370,148 @@ def backward_slice(body, operand, _seen=None):
                                     visit_op(a2)
     visit_op(operand)
     return calls, params
+
+
+# --------------------------------------------------------------------------------------
+# A1: non-atomic read-modify-write of one entry
+# --------------------------------------------------------------------------------------
+
+READ_KINDS = {'map': ('map-read', 'map-bulk-read'), 'watch': ('watch-read', 'watch-bulk-read'),
+              'pending': ('pending-read', 'pending-bulk-read')}
+WRITE_KINDS = {'map': ('map-write', 'map-bulk-write'), 'watch': ('watch-write', 'watch-bulk-write'),
+               'pending': ('pending-write', 'pending-bulk-write')}
+LOCK_OF = {'map': 'Database.map', 'watch': 'Watchers.map', 'pending': 'Databases.pending_opps'}
+
+
+def rmw_findings(m, body, tag):
+    """non-atomic read-modify-write of one `tag` entry inside `body`:
+    two *separate* critical sections of the lock, the earlier one reads an entry (or the whole
+    collection), the later one writes the same entry (same symbolic key, or a key taken from the
+    earlier result) with a value that depends on what the earlier section returned.
+    -> list of dicts (site1, site2, key, why)"""
+    L = LockModel(m.prog) if not hasattr(m, '_lockmodel') else m._lockmodel
+    m._lockmodel = L
+    ex = m.explorer()
+    effs, raw = m.effects_from(body)
+    lock = LOCK_OF[tag]
+    own = [a for a in L.acq(body) if lock in a.ids]
+    # group effects by the "section" they belong to, seen from `body`
+    sections = {}   # section id -> {'reads': [...], 'writes': [...], 'bi': block in body, 'kind'}
+    for ev, kind, info in effs:
+        if kind not in READ_KINDS[tag] + WRITE_KINDS[tag]:
+            continue
+        if not any(l == lock for l, _ in info.get('locks', ())):
+            continue
+        if ev.chain:
+            if ev.chain[0][0] != body.id:
+                continue
+            # the call site in body through which the effect was reached
+            loc0 = ev.chain[0][1]
+            cands = [bi for bi in body.reachable() if body.term(bi)['k'] == 'call' and body.loc(bi) == loc0]
+            site = None
+            for bi in cands:
+                t = body.term(bi)
+                nm = callee(t)
+                if len(ev.chain) > 1 and ev.chain[1][0] == nm or (len(ev.chain) == 1 and ev.frame.body.id == nm):
+                    site = bi
+                elif ev.frame.body.kind == 'closure':
+                    site = site if site is not None else bi
+            if site is None and cands:
+                site = cands[0]
+            if site is None:
+                continue
+            # inside one of body's own sections of the same lock?  then it is part of that section
+            holder = [a for a in own if site in a.region and site != a.bi]
+            sid = ('own', holder[0].bi) if holder else ('call', site)
+            sbi = holder[0].bi if holder else site
+        else:
+            holder = [a for a in own if ev.bi in a.region and ev.bi != a.bi]
+            if not holder:
+                continue
+            sid = ('own', holder[0].bi)
+            sbi = holder[0].bi
+        s = sections.setdefault(sid, {'reads': [], 'writes': [], 'bi': sbi, 'sid': sid})
+        (s['reads'] if kind in READ_KINDS[tag] else s['writes']).append((ev, kind, info))
+    out = []
+    secs = list(sections.values())
+    for s1 in secs:
+        if not s1['reads']:
+            continue
+        for s2 in secs:
+            if s1 is s2 or not s2['writes']:
+                continue
+            # s2 after s1 on some path
+            reach = body.reach_from([s1['bi']])
+            if s2['bi'] not in reach:
+                continue
+            # results of section 1 as seen in body
+            if s1['sid'][0] == 'call':
+                res_calls = {s1['bi']}
+            else:
+                a = [x for x in own if x.bi == s1['sid'][1]][0]
+                res_calls = {bi for bi in a.region if body.term(bi)['k'] == 'call'}
+            for (ev2, k2, i2) in s2['writes']:
+                key2 = i2.get('key') or frozenset()
+                same = None
+                for (ev1, k1, i1) in s1['reads']:
+                    key1 = i1.get('key')
+                    if key1 is not None and key2 and (set(key1) & set(key2)):
+                        same = 'same key %s' % sorted(ex.describe(v) for v in (set(key1) & set(key2)))
+                    elif key1 is None or k1.endswith('bulk-read'):
+                        # a copy of the whole collection was taken: any entry written later with
+                        # data from that copy is a read-modify-write of that entry (dependence is
+                        # checked below); a key rooted in a parameter is not from the copy
+                        if key2 and all(v[0] in ('call', 'summary', 'agg') for v in key2):
+                            same = 'entry taken from the earlier bulk copy'
+                if not same:
+                    # key derived from the earlier call's result (e.g. a field of the Response it returned)
+                    for v in key2:
+                        if v[0] in ('call',) and ex.frames[v[1]].body.id == body.id and v[2] in res_calls:
+                            same = 'key taken from the earlier result'
+                if not same:
+                    continue
+                # the written data depends on the earlier result?
+                dep = False
+                if s2['sid'][0] == 'call':
+                    t2 = body.term(s2['bi'])
+                    topf = ex.top_frame(body)
+                    for a2 in t2['args']:
+                        # the key argument itself does not count: the *data* written must depend on
+                        # what the earlier section returned
+                        av = ex.absvals(topf, a2)
+                        if key2 and av and set(av) <= set(key2):
+                            continue
+                        calls, params = backward_slice(body, a2)
+                        if calls & res_calls:
+                            dep = True
+                else:
+                    # direct section: the mutating call's value operands
+                    if ev2.frame.body.id == body.id and ev2.term is not None:
+                        for a2 in ev2.term['args'][1:]:
+                            calls, params = backward_slice(body, a2)
+                            if calls & res_calls:
+                                dep = True
+                    else:
+                        a = [x for x in own if x.bi == s2['sid'][1]][0]
+                        for bi in a.region:
+                            t = body.term(bi)
+                            if t['k'] == 'call':
+                                for a2 in t['args']:
+                                    calls, params = backward_slice(body, a2)
+                                    if calls & res_calls:
+                                        dep = True
+                if dep:
+                    out.append({'first': body.loc(s1['bi']), 'second': body.loc(s2['bi']), 'same': same,
+                                'first_fn': callee(body.term(s1['bi'])).split('::')[-1] if body.term(s1['bi'])['k'] == 'call' else '?',
+                                'second_fn': callee(body.term(s2['bi'])).split('::')[-1] if body.term(s2['bi'])['k'] == 'call' else '?',
+                                'write_at': ev2.loc(), 'kind': k2})
+    # dedupe
+    seen = set()
+    res = []
+    for o in out:
+        k = (o['first_fn'], o['second_fn'], o['kind'])
+        if k in seen:
+            continue
+        seen.add(k)
+        res.append(o)
+    return res
